@@ -72,7 +72,7 @@ CHECKS = {
 # and what happens when the subject does not return or kills the process (DESIGN 12.8, 12.13, 12.14).
 COMMON = {
  "serve_mc": " Run first in every serve_mc check: request-pair histories on fresh OS threads (serve() must be a function of its inputs: a result that depends on earlier calls, or that does not reproduce, is a violation), the 'zoo' (every rich alphabet -- entity tags, header sets incl. add_headers that read or replace entries, dates, mtimes, ranges, chunkings -- crossed once), bodies of 100..3000 ready frames drained inside a tokio task and by hand, and entity streams that are not fused (they panic when polled after their end).",
- "stream_mc": " Run first in every stream_mc check: the streaming zoo (25 history shapes x 13 chunk sizes x identity/gzip levels x one waker / fresh waker per poll / every poll on a fresh OS thread x payload classes; operations include write_vectored and write!), and two-body histories (an aborted or dropped body with unread chunks, then a fresh body of the same chunk size: the second must not depend on the first).",
+ "stream_mc": " Run first in every stream_mc check: the streaming zoo (25 history shapes x 13 chunk sizes x identity/gzip levels x one waker / a different waker per poll (rotating between wakers on fresh Arcs and wakers that share one data pointer and differ only in their vtable) / every poll on a fresh OS thread x payload classes; operations include write_vectored and write!), and two-body histories (an aborted or dropped body with unread chunks, then a fresh body of the same chunk size: the second must not depend on the first).",
 }
 ABORT = " A call into the subject that has not returned after 60 s (watchdog), or that aborts the process by panicking while a panic unwinds (SIGABRT handler), is reported as a violation of this property with a replay file; an abort caused by a refused allocation reruns the explorer without entities above 16 MiB (evidence field fallback_mode)."
 
